@@ -179,7 +179,9 @@ CHECKS = {
              "rank 1-4; x.grad, weight.grad and bias.grad must match float64 autograd on the twin built from the dequantized "
              "weight and the observed quantized input within the contraction bound; frozen weights and scales must have no "
              "gradient; after each in-place weight update the quantized weight of the next forward must be within one step "
-             "of the new float weight. Every case also checks the tensor-level straight-through identity: float leaf -> "
+             "of the new float weight; a training history keeps one optimizer created after quantize(), applies checkpoint "
+             "reloads / moves / mode switches between steps, and a held step must move the module weight by -lr x the "
+             "gradient just checked. Every case also checks the tensor-level straight-through identity: float leaf -> "
              "quantize_weight / quantize_activation -> dequantize -> backward(G) must leave exactly G (mapped through the "
              "views) in the leaf's gradient.",
         note="The upstream gradient is applied to out.dequantize() when activations are quantized. Gradient tolerances "
